@@ -22,6 +22,7 @@ type Witness struct {
 	Sub   string          `json:"sub,omitempty"`
 	Input string          `json:"input,omitempty"`
 	Case  json.RawMessage `json:"case,omitempty"`
+	Open  bool            `json:"-"` // set by RunWitnesses: the witness belongs to an open finding (judge it strictly)
 }
 
 // Finding is one entry of known_findings.json.
@@ -92,6 +93,7 @@ func RunWitnesses(t *testing.T, property string, run func(t h.TB, w Witness)) {
 		still := 0
 		for _, w := range f.Witnesses {
 			w := w
+			w.Open = f.Status == "open"
 			h.Eval("Witness")
 			if f.Status == "open" {
 				failed, _ := h.Probe(func(t h.TB) { run(t, w) })
@@ -182,22 +184,21 @@ func (f Finding) Describe() string { return fmt.Sprintf("%s (%s)", f.Key, f.What
 //	KF-3: the file declares a generic type alias (`type A[P any] = T`, accepted by go/parser since
 //	      go1.23): dst orders a TypeSpec's parts Name, '=', TypeParams, Type, so decorations next
 //	      to the '=' or the type parameter list are emitted at the wrong side of the list.
-//	KF-4: a comment group (as go/parser groups them) of two or more comments, one of them a
-//	      multi-line /* */ comment or a // comment, that starts behind a token on the same line or is followed by one on the line where it ends. go/printer keeps
-//	      a group containing a newline behind the following ',' (it must not move across an
-//	      implied semicolon); dst restores every comment as its own group, so the single-line
-//	      members are flushed before the comma: `for a,/*c*/ /* m\n */b := range x` comes back
-//	      as `for a /*c*/,/* m\n */b := range x`.
 //	KF-1: !oracle.ColumnRobust(src).
 func LayoutClass(src []byte) string {
+	c := layoutClass(src)
+	if c != "" && c == os.Getenv("VERIF_STRICT_CLASS") {
+		return "" // experiment switch: judge one class strictly (used to evaluate candidate repairs)
+	}
+	return c
+}
+
+func layoutClass(src []byte) string {
 	if abuttingBlockComment(src) {
 		return "KF-2"
 	}
 	if genericAlias(src) {
 		return "KF-3"
-	}
-	if inlineGroupWithMultiLineComment(src) {
-		return "KF-4"
 	}
 	if !oracle.ColumnRobust(src) {
 		return "KF-1"
